@@ -46,20 +46,20 @@ Proof. exact tables_ok_true. Qed.
 (* 3. hence for every 8-bit colour the exact model picks a closest entry among all 240
       non-system ones, positions as typed in the tables *)
 Theorem C20_closest_256_exact_model :
-  forall c : rgba,
+  forall c : rgba, ca c = 255%N ->      (* opaque: the code premultiplies by alpha, the model does not *)
   (16 <= pal256_exact c < 256)%N /\
   forall m, (16 <= m < 256)%N ->
     d2 (lin_vec c) (entry cube_z greys_z (pal256_exact c)) <= d2 (lin_vec c) (entry cube_z greys_z m).
-Proof. exact pal256_exact_optimal. Qed.
+Proof. exact pal256_exact_optimal_opaque. Qed.
 
 (* 3b. EPSILON statement: at the TRUE palette positions (library's own linearisation of the
        xterm levels 0,95,135,175,215,255 / 8+10k) the exact model's entry is closest up to
        eps_sq_bound = 12 * eps * 1 in squared linear-light distance, eps = 1e-6 *)
 Theorem C20_closest_256_true_palette_upto_eps :
-  forall (c : rgba) m, (16 <= m < 256)%N ->
+  forall (c : rgba), ca c = 255%N -> forall m, (16 <= m < 256)%N ->
     d2 (lin_vec c) (entry xcube_z xgreys_z (pal256_exact c))
     <= d2 (lin_vec c) (entry xcube_z xgreys_z m) + eps_sq_bound.
-Proof. exact pal256_true_palette_upto_eps. Qed.
+Proof. exact pal256_true_palette_upto_eps_opaque. Qed.
 
 (* 3c. the tolerance predicate of the correspondence check means "sqrt xx <= sqrt yy + eps" *)
 Theorem C20_tolerance_predicate :
@@ -120,7 +120,7 @@ Theorem C20_bruteforce_is_minimum :
 Proof. exact best_d2_tab_spec. Qed.
 
 Check C20_closest_256_exact_model :
-  forall c : rgba,
+  forall c : rgba, ca c = 255%N ->
   (16 <= pal256_exact c < 256)%N /\
   forall m, (16 <= m < 256)%N ->
     d2 (lin_vec c) (entry cube_z greys_z (pal256_exact c)) <= d2 (lin_vec c) (entry cube_z greys_z m).
